@@ -13,6 +13,11 @@
  * Payload memcpy/memset are checking stubs (c13_mem.h). Loop-free.
  */
 #define C14_SITE "meta_flush"
+/* 8 KiB buffers inside structs: no symbolic-index byte accesses (SAT does not
+ * finish otherwise). Payload bytes are never read by the code under test nor
+ * by an obligation here; the 2 byte block header is copied exactly. */
+#define C13_MEM_NO_WITNESS
+#define C14_NO_WITNESS
 #include <stdlib.h>
 #include <string.h>
 #include "verif.h"
